@@ -59,6 +59,9 @@ pub enum Input {
     HeaderPrefix { base: usize, len: usize },
     /// image with byte ranges overwritten: (offset, bytes)
     Patched { base: usize, patches: Vec<(usize, Vec<u8>)>, what: String, must_refuse: bool },
+    /// a valid image opened with explicit cache slice sizes (chosen by the caller before the image's
+    /// cluster size is known)
+    Params { base: usize, bits: u8 },
 }
 
 fn base_images() -> Vec<(String, Vec<u8>)> {
@@ -103,7 +106,7 @@ fn field_values(name: &str, width: usize, cs: u64, flen: u64) -> Vec<u64> {
     let maxv: u64 = if width == 8 { u64::MAX } else if width == 4 { u32::MAX as u64 } else { 255 };
     let mut v: Vec<u64> = vec![0, 1, 2, 3, 4, 7, 8, 9, 21, 22, 31, 32, 63, 64, 72, 104, 112, 1 << 16, 1 << 31, maxv - 1, maxv, cs - 1, cs, cs + 1, 2 * cs, flen - 1, flen, flen + cs];
     if width == 8 {
-        v.extend([1 << 32, 1 << 55, (1 << 56) - cs, 1 << 56, 1 << 63]);
+        v.extend([1 << 32, 1 << 55, (1 << 56) - cs, 1 << 56, 1 << 63, (1 << 63) - cs, u64::MAX / cs * cs, u64::MAX / cs * cs - cs]);
     }
     if name == "size" {
         v.extend([1 << 40, 1 << 50, 1 << 62]);
@@ -146,6 +149,12 @@ pub fn inputs(thorough: bool) -> Vec<Input> {
             if len <= img.len() {
                 out.push(Input::HeaderPrefix { base: bi, len });
             }
+        }
+    }
+    // (a') valid images, explicit slice sizes from one block up to 64 KiB
+    for bi in 0..bases.len() {
+        for bits in 9..=16u8 {
+            out.push(Input::Params { base: bi, bits });
         }
     }
     // (b) single field mutations, then pairs
@@ -204,6 +213,12 @@ pub fn inputs(thorough: bool) -> Vec<Input> {
             }
             for ct in 1..=3u64 {
                 out.push(Input::Patched { base: bi, patches: vec![(72, enc(8, 1 << 3)), (104, enc(1, ct))], what: format!("{}: compression_type {}", bname, ct), must_refuse: true });
+            }
+            // a compression type without its feature bit is still not deflate (the field exists if the header is long enough)
+            if h.header_length > 104 {
+                for ct in [1u64, 2, 3, 0x80, 0xff] {
+                    out.push(Input::Patched { base: bi, patches: vec![(104, enc(1, ct))], what: format!("{}: compression_type {} without the feature bit", bname, ct), must_refuse: true });
+                }
             }
         }
         // (c) extension area
@@ -288,6 +303,7 @@ pub fn inputs(thorough: bool) -> Vec<Input> {
 fn materialize(inp: &Input, bases: &[(String, Vec<u8>)]) -> (Vec<u8>, String, bool) {
     match inp {
         Input::HeaderPrefix { base, len } => (bases[*base].1[..*len].to_vec(), format!("{}: header buffer of {} bytes", bases[*base].0, len), false),
+        Input::Params { base, bits } => (bases[*base].1.clone(), format!("{}: opened with {}-byte cache slices", bases[*base].0, 1u64 << bits), false),
         Input::Patched { base, patches, what, must_refuse } => {
             let mut b = bases[*base].1.clone();
             for (off, bytes) in patches {
@@ -320,7 +336,10 @@ fn run_input(inp: &Input, bases: &[(String, Vec<u8>)]) -> (String, Vec<(String, 
     let sim = Sim::new(vec![bytes]);
     sim.borrow_mut().keep_payload = false;
     sim.borrow_mut().max_file_len = 64 << 20;
-    let cfg = DevCfg { bs_bits: 9, l2: None, rb: None };
+    let cfg = match inp {
+        Input::Params { bits, .. } => DevCfg { bs_bits: 9, l2: Some((*bits, 4usize << bits)), rb: Some((*bits, 4usize << bits)) },
+        _ => DevCfg { bs_bits: 9, l2: None, rb: None },
+    };
     PEAK.store(CUR.load(Ordering::Relaxed), Ordering::Relaxed);
     let base_cur = CUR.load(Ordering::Relaxed);
     let dev = catch_unwind(AssertUnwindSafe(|| {
